@@ -604,10 +604,14 @@ func (fr *frame) evalUnary(st *State, x *ast.UnaryExpr) *Value {
 			if lv.kind == lvHeap && lv.prefix == structClass(lv.T) {
 				return scalar(lv.ref, fr.typeOf(x))
 			}
-			return &Value{K: VScalar, T: fr.typeOf(x), S: mkVar(freshName("alias"), SInt), Alias: lv}
+			av0 := mkVar(freshName("alias"), SInt)
+			st.assume(Gt(av0, mkInt(0)))
+			return &Value{K: VScalar, T: fr.typeOf(x), S: av0, Alias: lv}
 		case lvVar:
-			// address of a local: box it on the heap if it is a struct, else alias
-			return &Value{K: VScalar, T: fr.typeOf(x), S: mkVar(freshName("alias"), SInt), Alias: lv}
+			// address of a local: an alias pointer (never nil)
+			av := mkVar(freshName("alias"), SInt)
+			st.assume(Gt(av, mkInt(0)))
+			return &Value{K: VScalar, T: fr.typeOf(x), S: av, Alias: lv}
 		}
 		panic(unsupported("address-of"))
 	case token.ARROW:
